@@ -153,7 +153,7 @@ def h_yearspell(ch: Chooser):
 # formatting: value -> str -> valid + parses back
 
 V_YEARS = [2023, 2000, 1900, 1, 0, -1, -10000, 9999, 10000, 123456]
-V_MD = [(1, 1), (1, 31), (2, 28), (2, 29), (3, 31), (4, 30), (6, 15), (12, 31), (10, 9)]
+V_MD = [(1, 1), (1, 31), (2, 28), (2, 29), (3, 1), (3, 31), (4, 30), (6, 15), (12, 31), (10, 9)]
 V_TIMES = [(0, 0, 0), (12, 30, 45), (23, 59, 59), (24, 0, 0), (1, 2, 3)]
 V_FS = [0, 1, 999999999, 500000000, 120000000, 123000000, 123400000, 123456000, 123456700, 123456789, 1000, 1000000,
         999999, 10]
@@ -236,8 +236,27 @@ def _same_dt(a, b):
 
 @harness("c06.convert")
 def h_convert(ch: Chooser):
-    leg = ch.pick(["datetime", "date", "time", "date-datetime"], "leg", True)
+    leg = ch.pick(["datetime", "date", "time", "date-datetime", "xml-to-std"], "leg", True)
     case = {"leg": "convert/" + leg}
+    if leg == "xml-to-std":
+        # values finer than the standard library's microseconds: the result is the value cut to microseconds -- never later than
+        # the value, and less than one microsecond earlier
+        fs = ch.pick([0, 1, 499, 500, 999, 1000, 123456499, 123456500, 123456789, 999999499, 999999500, 999999999], "fraction", True)
+        kind = ch.pick(["dateTime", "time"], "kind", True)
+        off = ch.pick([None, 0, 330, -840], "offset", True)
+        hms = ch.pick([(0, 0, 0), (23, 59, 59), (12, 30, 45)], "hms", True)
+        v = XmlDateTime(2000, 12, 31, *hms, fs, off) if kind == "dateTime" else XmlTime(*hms, fs, off)
+        case["obj"] = repr(v)
+        b = call(v.to_datetime if kind == "dateTime" else v.to_time)
+        if b[0] == "exc":
+            return dict(ok=False, case=case, bucket=f"convert/xml-to-std/{kind}/raises", detail=f"{v!r}: {b[1]!r}")
+        o = b[1]
+        got = (o.hour, o.minute, o.second, o.microsecond) + ((o.year, o.month, o.day) if kind == "dateTime" else ())
+        want = hms + (fs // 1000,) + ((2000, 12, 31) if kind == "dateTime" else ())
+        exp_off = None if off is None else dt.timedelta(minutes=off)
+        if got != want or o.utcoffset() != exp_off:
+            return dict(ok=False, case=case, bucket=f"convert/xml-to-std/{kind}/instant-changed", detail=f"{v!r} -> {o!r}; expected the value cut to microseconds {want}")
+        return dict(ok=True, case=case, obs="x2s", nontrivial=repr(v))
     if leg in ("datetime", "date-datetime"):
         d = ch.pick(C_DATES, "date", True)
         t = ch.pick(C_TIMES, "time", True) if leg == "datetime" else (0, 0, 0, 0)
@@ -313,7 +332,9 @@ def _cmp_values(kind: str, tz: bool, big: bool):
         return out
     dates = [(2000, 12, 31), (2001, 1, 1), (2000, 1, 31), (2000, 2, 1), (2000, 2, 28), (2000, 2, 29), (2000, 3, 1), (1900, 2, 28),
              (1900, 3, 1), (2023, 6, 30), (2023, 7, 1), (1, 1, 1), (0, 12, 31), (0, 1, 1), (-1, 12, 31), (-1, 1, 1), (-1, 6, 15),
-             (9999, 12, 31), (10000, 1, 1)]
+             (9999, 12, 31), (10000, 1, 1),
+             # the end of February in negative years (leap and common, century and 400-year rules)
+             (-1, 2, 28), (-1, 3, 1), (-4, 2, 29), (-4, 3, 1), (-100, 2, 28), (-100, 3, 1), (-400, 2, 29), (-400, 3, 1)]
     times = [(0, 0, 0, 0), (0, 0, 0, 1), (23, 0, 0, 0), (23, 59, 59, 999999999), (24, 0, 0, 0), (12, 0, 0, 0)]
     if big:
         dates += [(2024, 2, 29), (2024, 3, 1), (1999, 12, 31), (400, 2, 29), (-4, 2, 29), (-10000, 1, 1), (123456, 1, 1), (2000, 4, 30), (2000, 5, 1)]
